@@ -85,7 +85,7 @@ theorem other_errors_always_stop (P : Parser) (e : GoErr) (h : e.isUnknownFlag =
 theorem handler_result_is_parsed_next (h : Handler) (name : Bytes) (args args' : List Bytes)
     (hr : runHandler h name args = .ok args') :
     (h = .none ∨ h = .identity → args' = args) ∧ (h = .dropNext → args' = args.drop 1) ∧
-    (∀ t, h = .prepend t → args' = t :: args) := by
+    (∀ t, h = .prepend t → args' = t :: args) ∧ (h = .swallow → args' = []) := by
   cases h <;> simp_all [runHandler]
 
 /-- the whole parse phase calls user code only through callbacks and the handler (no execution) -/
